@@ -132,6 +132,8 @@ class State:
         self.notes = []    # trace of decisions (for witness output)
         self.written = None  # optional set collecting written cells (loop analysis)
         self.ghost = {}    # free-form analysis data (e.g. lock depth)
+        self.conv = {}     # memo of signed<->unsigned conversions
+        self.diseq = {}    # canonical key of d -> Lin d  meaning d != 0
 
     def fork(self):
         s = State.__new__(State)
@@ -144,6 +146,8 @@ class State:
         s.notes = list(self.notes)
         s.written = self.written
         s.ghost = dict(self.ghost)
+        s.conv = dict(self.conv)
+        s.diseq = dict(self.diseq)
         return s
 
     @property
@@ -172,6 +176,24 @@ class State:
         self.objs[oid] = o
         return o
 
+    @staticmethod
+    def canon(d):
+        """canonical orientation of a difference d (for d != 0 facts)"""
+        if not d.t:
+            return d
+        k0 = min(d.t.keys(), key=str)
+        return d if d.t[k0] > 0 else -d
+
+    def add_diseq(self, a, b):
+        d = self.canon(_L(a) - _L(b))
+        self.diseq[d.key()] = d
+
+    def known_diseq(self, a, b):
+        d = self.canon(_L(a) - _L(b))
+        if not d.t:
+            return d.c != 0
+        return d.key() in self.diseq
+
     # ---- interpretation helpers ----
     def as_u(self, v):
         """unsigned linear form of IntVal or None"""
@@ -191,24 +213,39 @@ class State:
         return None
 
     def force_u(self, v, hint='u'):
-        """unsigned form; when not provable, a fresh symbol (sound: loses the
-        relation)"""
+        """unsigned form. When only the signed form s is known the exact
+        relation u = s + 2^w*k (k in {0,1}, 0 <= u < 2^w) is introduced with a
+        fresh carry symbol, memoised per value so that every conversion of
+        the same value yields the same form."""
         u = self.as_u(v)
         if u is not None:
             return u
-        f = self.fresh_int(v.w, False, hint)
-        if v.s is not None:
-            # u = s or s + 2^w ; keep the sound facts u >= s, u <= s + 2^w
-            self.cons.add_le(v.s, f.u)
-            self.cons.add_le(f.u, v.s + (1 << v.w))
-        return f.u
+        if v.s is None:
+            return self.fresh_int(v.w, False, hint).u
+        key = ('u', v.w, v.s.key())
+        r = self.conv.get(key)
+        if r is None:
+            k = self.fresh_int(1, False, 'k' + hint)
+            r = v.s + k.u * (1 << v.w)
+            self.cons.add_le(0, r)
+            self.cons.add_le(r, (1 << v.w) - 1)
+            self.conv[key] = r
+            self.conv[('s', v.w, r.key())] = v.s
+        return r
 
     def force_s(self, v, hint='s'):
         s = self.as_s(v)
         if s is not None:
             return s
-        f = self.fresh_int(v.w, True, hint)
-        if v.u is not None:
-            self.cons.add_le(f.s, v.u)
-            self.cons.add_le(v.u - (1 << v.w), f.s)
-        return f.s
+        if v.u is None:
+            return self.fresh_int(v.w, True, hint).s
+        key = ('s', v.w, v.u.key())
+        r = self.conv.get(key)
+        if r is None:
+            k = self.fresh_int(1, False, 'k' + hint)
+            r = v.u - k.u * (1 << v.w)
+            self.cons.add_le(-(1 << (v.w - 1)), r)
+            self.cons.add_le(r, (1 << (v.w - 1)) - 1)
+            self.conv[key] = r
+            self.conv[('u', v.w, r.key())] = v.u
+        return r
